@@ -38,6 +38,7 @@ fn ctx_small() -> Value {
         m1 => context!{ k => 1, n => context!{ q => "x" } },
         a => context!{ x => 1 },
         lm => vec![context!{ k => 1, v => "p" }, context!{ k => 2, v => "q" }, context!{ v => "r" }],
+        h1 => "<b>&", hs => safe("<i>"), lh => vec![safe("<x>"), Value::from("<y>")], lp => vec!["a&", "'b"],
     }
 }
 
@@ -124,6 +125,8 @@ struct Envs {
     envs: Vec<Environment<'static>>,
     /// custom formatters (Emit goes through Environment::format): [delegating, visible, counting]
     fmt_envs: [Vec<Environment<'static>>; 3],
+    /// default formatter + everything minijinja-contrib registers + pycompat's method callback
+    contrib_envs: Vec<Environment<'static>>,
 }
 
 thread_local! {
@@ -194,11 +197,18 @@ fn add_arg_filters(e: &mut Environment<'static>) {
 fn mk_envs() -> Envs {
     let mut envs = vec![];
     let mut fmt_envs = [vec![], vec![], vec![]];
+    let mut contrib_envs = vec![];
     for m in MODES {
         let mut e = Environment::new();
         e.set_undefined_behavior(m);
         add_arg_filters(&mut e);
         envs.push(e);
+        let mut e = Environment::new();
+        e.set_undefined_behavior(m);
+        add_arg_filters(&mut e);
+        minijinja_contrib::add_to_environment(&mut e);
+        e.set_unknown_method_callback(minijinja_contrib::pycompat::unknown_method_callback);
+        contrib_envs.push(e);
         for kind in 1..=3 {
             let mut e = Environment::new();
             e.set_undefined_behavior(m);
@@ -222,7 +232,7 @@ fn mk_envs() -> Envs {
             fmt_envs[kind - 1].push(e);
         }
     }
-    Envs { envs, fmt_envs }
+    Envs { envs, fmt_envs, contrib_envs }
 }
 
 fn render(env: &Environment, src: &str, ctx: &Value, counting: bool) -> String {
@@ -271,10 +281,10 @@ fn enc_value(strict: &Environment, v: &Value, out: &mut String) -> Option<()> {
         }
         ValueKind::String => {
             let s = v.as_str()?;
-            if v.is_safe() || !s.chars().all(|c| c.is_ascii_alphanumeric() || " _.,:-".contains(c)) {
+            if !s.chars().all(|c| (' '..='~').contains(&c)) {
                 return None;
             }
-            write!(out, "X {}", hx(s)).unwrap();
+            write!(out, "{} {}", if v.is_safe() { "Y" } else { "X" }, hx(s)).unwrap();
         }
         ValueKind::Seq => {
             if v.is_tuple() {
@@ -344,6 +354,13 @@ fn enc_instr(strict: &Environment, ins: &Instruction, out: &mut String) {
         I::CallFunction(n, a) if argc(a) >= 0 => write!(out, "CallFunction {} {}", hx(n), argc(a)).unwrap(),
         I::CallMethod(n, a) if argc(a) >= 0 => write!(out, "CallMethod {} {}", hx(n), argc(a)).unwrap(),
         I::CallObject(a) if argc(a) >= 0 => write!(out, "CallObject {}", argc(a)).unwrap(),
+        // `*args`: the number of arguments is on the stack (pushed by UnpackLists)
+        I::CallFunction(n, None) => write!(out, "CallFunctionDyn {}", hx(n)).unwrap(),
+        I::CallMethod(n, None) => write!(out, "CallMethodDyn {}", hx(n)).unwrap(),
+        I::CallObject(None) => out.push_str("CallObjectDyn"),
+        I::ApplyFilter(n, None, _) => write!(out, "ApplyFilterDyn {}", hx(n)).unwrap(),
+        I::PerformTest(n, None, _) => write!(out, "PerformTestDyn {}", hx(n)).unwrap(),
+        I::UnpackLists(n) => write!(out, "UnpackLists {}", n).unwrap(),
         I::IsUndefined => out.push_str("IsUndefined"),
         I::Enclose(n) => write!(out, "Enclose {}", hx(n)).unwrap(),
         I::GetClosure => out.push_str("GetClosure"),
@@ -386,10 +403,13 @@ fn enc_instr(strict: &Environment, ins: &Instruction, out: &mut String) {
             if j.contains("\"Capture\"") {
                 out.push_str("BeginCapture")
             } else {
-                out.push_str("Unsupported BeginCapture-Discard")
+                out.push_str("BeginCaptureDiscard")
             }
         }
         I::EndCapture => out.push_str("EndCapture"),
+        I::ExportLocals => out.push_str("ExportLocals"),
+        I::PushAutoEscape => out.push_str("PushAutoEscape"),
+        I::PopAutoEscape => out.push_str("PopAutoEscape"),
         I::DupTop => out.push_str("DupTop"),
         I::DiscardTop => out.push_str("DiscardTop"),
         I::Swap => out.push_str("Swap"),
@@ -408,10 +428,12 @@ fn enc_instr(strict: &Environment, ins: &Instruction, out: &mut String) {
 
 /// `C @ F <formatter kind 0..3> P <number of codes> (K <hex name|-> N <count> <instr>…)…` (`@` = the context of the preceding `ctx` line) or `-` when
 /// the template does not compile
-fn enc_prog(envs: &Envs, src: &str, ctx: &Value, fmt_kind: usize) -> String {
+/// `name` decides the initial auto-escaping (`A 1` = HTML)
+fn enc_prog_named(envs: &Envs, name: &str, src: &str, ctx: &Value, fmt_kind: usize) -> String {
     let strict = &envs.envs[3];
+    let auto_escape = name.ends_with(".html") as u8;
     let r = guarded(|| {
-        let tmpl = match strict.template_from_str(src) {
+        let tmpl = match strict.template_from_named_str(name, src) {
             Ok(t) => t,
             Err(_) => return None,
         };
@@ -454,7 +476,7 @@ fn enc_prog(envs: &Envs, src: &str, ctx: &Value, fmt_kind: usize) -> String {
             }
         }
         let mut out = String::from("C @");
-        write!(out, " F {} P {}", fmt_kind, codes.len()).unwrap();
+        write!(out, " F {} A {} P {}", fmt_kind, auto_escape, codes.len()).unwrap();
         for (name, body, n) in &codes {
             write!(out, " K {} N {}{}", name, n, body).unwrap();
         }
@@ -530,6 +552,271 @@ fn entry_render(entry: &str, mode: UndefinedBehavior, src: &str, ctx: &Value) ->
     }
 }
 
+// ------------------------------------------------------------------------------------------
+// the site matrix in every OUTPUT CONTEXT and entry form (stream `cx.<context>.<entry>.<formatter>`)
+//
+// "the output goes nowhere" must not switch a check off: every site template is placed at the top
+// level, inside a block / macro / call block / set block / filter block / autoescape block / loop
+// body / loop else / with / if, at the top level of a child template after `{% extends %}` (the
+// output is DISCARDING there), inside a child block, in the parent's block reached through super(),
+// in an included template, in a module loaded with `import .. as` (captured) and with
+// `from .. import` (discarding), with captures nested inside the discarding contexts, and is
+// rendered through render / render_captured / render_captured_to a writer and a sink /
+// render_named_str / State::render_block(_to_write) / Expression::eval (null output).
+
+/// `err:<kind>` or `err:<kind>/<kind of the innermost error>` (errors raised in an included or imported
+/// template, or in a block, are wrapped)
+fn err_text(e: &minijinja::Error) -> String {
+    let top = error_kind_name(e);
+    let mut root = top.clone();
+    let mut src = std::error::Error::source(e);
+    while let Some(inner) = src {
+        if let Some(me) = inner.downcast_ref::<minijinja::Error>() {
+            root = error_kind_name(me);
+        }
+        src = inner.source();
+    }
+    if root == top { format!("err:{}", top) } else { format!("err:{}/{}", top, root) }
+}
+
+const CX_BASE: &str = "<{% block body %}base{% endblock %}>";
+const CX_HELLO: &str = "{% macro hello() %}hello{% endmacro %}";
+
+/// output contexts: the ones from `extends_top` on run (partly) with a discarding output
+const CXS: &[&str] = &[
+    "top", "block", "macro", "callblock", "setblock", "filterblock", "autoescape_off", "autoescape_html", "loop", "loopelse", "with", "ifbranch",
+    "extends_block", "extends_super", "include", "import_as", "import_print", "from_import_macro",
+    "extends_top", "extends_top_set", "extends_top_macro", "extends_top_loop", "extends_top_include", "from_import", "from_import_if", "from_import_set",
+    "from_import_nested",
+];
+
+struct CxCase {
+    /// (name, source) of the templates next to the main one
+    templates: Vec<(&'static str, String)>,
+    main: String,
+    /// expected output of the modes that must not fail (`None`: only ok-vs-error is judged)
+    expect: Option<String>,
+}
+
+fn cx_build(cx: &str, site: &str, e: &str) -> CxCase {
+    let base = || vec![("cx_base", CX_BASE.to_string())];
+    let s = site;
+    let (templates, main, expect): (Vec<(&'static str, String)>, String, Option<String>) = match cx {
+        "top" => (vec![], s.to_string(), Some(e.to_string())),
+        "block" => (vec![], format!("{{% block cxb %}}{s}{{% endblock %}}"), Some(e.to_string())),
+        "macro" => (vec![], format!("{{% macro cxm() %}}{s}{{% endmacro %}}{{{{ cxm() }}}}"), Some(e.to_string())),
+        "callblock" => (vec![], format!("{{% macro cxm() %}}<{{{{ caller() }}}}>{{% endmacro %}}{{% call cxm() %}}{s}{{% endcall %}}"), Some(format!("<{e}>"))),
+        "setblock" => (vec![], format!("{{% set cxv %}}{s}{{% endset %}}{{{{ cxv }}}}"), Some(e.to_string())),
+        "filterblock" => (vec![], format!("{{% filter trim %}}{s}{{% endfilter %}}"), Some(e.trim().to_string())),
+        "autoescape_off" => (vec![], format!("{{% autoescape false %}}{s}{{% endautoescape %}}"), Some(e.to_string())),
+        "autoescape_html" => (vec![], format!("{{% autoescape 'html' %}}{s}{{% endautoescape %}}"),
+            if e.chars().any(|c| "<>&\"'/".contains(c)) { None } else { Some(e.to_string()) }),
+        "loop" => (vec![], format!("{{% for cxi in [1] %}}{s}{{% endfor %}}"), Some(e.to_string())),
+        "loopelse" => (vec![], format!("{{% for cxi in [] %}}{{% else %}}{s}{{% endfor %}}"), Some(e.to_string())),
+        "with" => (vec![], format!("{{% with cxw = 1 %}}{s}{{% endwith %}}"), Some(e.to_string())),
+        "ifbranch" => (vec![], format!("{{% if b1 %}}{s}{{% endif %}}"), Some(e.to_string())),
+        "extends_block" => (base(), format!("{{% extends 'cx_base' %}}{{% block body %}}{s}{{% endblock %}}"), Some(format!("<{e}>"))),
+        "extends_super" => (vec![("cx_base_s", format!("<{{% block body %}}{s}{{% endblock %}}>"))],
+            "{% extends 'cx_base_s' %}{% block body %}({{ super() }}){% endblock %}".to_string(), Some(format!("<({e})>"))),
+        "include" => (vec![("cx_site", s.to_string())], "{% include 'cx_site' %}".to_string(), Some(e.to_string())),
+        "import_as" => (vec![("cx_site", s.to_string())], "{% import 'cx_site' as cxmod %}[ok]".to_string(), Some("[ok]".to_string())),
+        "import_print" => (vec![("cx_site", s.to_string())], "{% import 'cx_site' as cxmod %}{{ cxmod }}".to_string(), Some(e.to_string())),
+        "from_import_macro" => (vec![("cx_mod", format!("{{% macro cxsite() %}}{s}{{% endmacro %}}"))],
+            "{% from 'cx_mod' import cxsite %}{{ cxsite() }}".to_string(), Some(e.to_string())),
+        // ---- the output is discarding while the site runs
+        "extends_top" => (base(), format!("{{% extends 'cx_base' %}}{s}"), Some("<base>".to_string())),
+        "extends_top_set" => (base(), format!("{{% extends 'cx_base' %}}{{% set cxv %}}{s}{{% endset %}}"), Some("<base>".to_string())),
+        "extends_top_macro" => (base(), format!("{{% extends 'cx_base' %}}{{% macro cxm() %}}{s}{{% endmacro %}}{{{{ cxm() }}}}"), Some("<base>".to_string())),
+        "extends_top_loop" => (base(), format!("{{% extends 'cx_base' %}}{{% for cxi in [1] %}}{s}{{% endfor %}}"), Some("<base>".to_string())),
+        "extends_top_include" => { let mut t = base(); t.push(("cx_site", s.to_string())); (t, "{% extends 'cx_base' %}{% include 'cx_site' %}".to_string(), Some("<base>".to_string())) }
+        "from_import" => (vec![("cx_mod", format!("{s}{CX_HELLO}"))], "{% from 'cx_mod' import hello %}[{{ hello() }}]".to_string(), Some("[hello]".to_string())),
+        "from_import_if" => (vec![("cx_mod", format!("{{% if b1 %}}{s}{{% endif %}}{CX_HELLO}"))], "{% from 'cx_mod' import hello %}[{{ hello() }}]".to_string(), Some("[hello]".to_string())),
+        "from_import_set" => (vec![("cx_mod", format!("{{% set cxv %}}{s}{{% endset %}}{CX_HELLO}"))], "{% from 'cx_mod' import hello %}[{{ hello() }}]".to_string(), Some("[hello]".to_string())),
+        "from_import_nested" => (vec![("cx_mod", format!("{{% include 'cx_site' %}}{CX_HELLO}")), ("cx_site", s.to_string())],
+            "{% from 'cx_mod' import hello %}[{{ hello() }}]".to_string(), Some("[hello]".to_string())),
+        _ => unreachable!("unknown output context {cx}"),
+    };
+    CxCase { templates, main, expect }
+}
+
+/// ways into the engine for a (multi-template) case
+const CX_ENTRIES: &[&str] = &["render", "captured", "to_vec", "to_sink", "named_str", "render_block", "block_to_write", "eval"];
+
+/// a writer that drops everything
+struct Sink;
+impl std::io::Write for Sink {
+    fn write(&mut self, buf: &[u8]) -> std::io::Result<usize> { Ok(buf.len()) }
+    fn flush(&mut self) -> std::io::Result<()> { Ok(()) }
+}
+
+fn cx_env(envs: &Envs, mode: usize, k: usize, case: &CxCase) -> Result<Environment<'static>, minijinja::Error> {
+    let mut env = if k == 0 { envs.envs[mode].clone() } else { envs.fmt_envs[k - 1][mode].clone() };
+    for (n, src) in &case.templates {
+        env.add_template_owned(n.to_string(), src.clone())?;
+    }
+    Ok(env)
+}
+
+/// `None` = the entry form does not apply to this case
+fn cx_render(envs: &Envs, entry: &str, mode: usize, k: usize, case: &CxCase, site: &str, ctx: &Value) -> Option<String> {
+    FMT_CALLS.with(|c| c.set(0));
+    let r = guarded(|| -> Result<Option<String>, minijinja::Error> {
+        let mut env = cx_env(envs, mode, k, case)?;
+        Ok(Some(match entry {
+            "render" => {
+                env.add_template_owned("cx_main".to_string(), case.main.clone())?;
+                env.get_template("cx_main")?.render(ctx.clone())?
+            }
+            "captured" => env.template_from_str(&case.main)?.render_captured(ctx.clone())?.into_output(),
+            "to_vec" => {
+                let mut buf: Vec<u8> = vec![];
+                env.template_from_str(&case.main)?.render_captured_to(ctx.clone(), &mut buf)?;
+                String::from_utf8_lossy(&buf).into_owned()
+            }
+            "to_sink" => {
+                env.template_from_str(&case.main)?.render_captured_to(ctx.clone(), Sink)?;
+                String::new()
+            }
+            "named_str" => env.render_named_str("cx_main.txt", &case.main, ctx.clone())?,
+            "render_block" | "block_to_write" => {
+                // the block is defined but not reached by the top-level render: only render_block runs the site
+                let wrapped = format!("{{% if b0 %}}{{% block cxsite %}}{}{{% endblock %}}{{% endif %}}", case.main);
+                let tmpl = env.template_from_str(&wrapped)?;
+                let mut cap = tmpl.render_captured(ctx.clone())?;
+                if entry == "render_block" {
+                    cap.with_state_mut(|state| state.render_block("cxsite"))?
+                } else {
+                    let mut buf: Vec<u8> = vec![];
+                    cap.with_state_mut(|state| state.render_block_to_write("cxsite", &mut buf))?;
+                    String::from_utf8_lossy(&buf).into_owned()
+                }
+            }
+            "eval" => {
+                // `[{{ EXPR }}]` sites only: the expression is evaluated with a null output
+                let inner = site.strip_prefix("[{{ ").and_then(|s| s.strip_suffix(" }}]"));
+                match inner {
+                    Some(e) if !e.contains("}}") && case.templates.is_empty() && case.main == site => {
+                        let v = env.compile_expression(e)?.eval(ctx.clone())?;
+                        format!("[{}]", v)
+                    }
+                    _ => return Ok(None),
+                }
+            }
+            _ => unreachable!(),
+        }))
+    });
+    Some(match r {
+        Ok(Ok(Some(mut s))) => {
+            if k == 3 {
+                s.push_str(&format!("#{}", FMT_CALLS.with(|c| c.get())));
+            }
+            format!("ok:{}", hex(s.as_bytes()))
+        }
+        Ok(Ok(None)) => return None,
+        Ok(Err(e)) => err_text(&e),
+        Err(p) => format!("panic:{}", hex(p.as_bytes())),
+    })
+}
+
+/// the instruction streams of a multi-template case for the Lean driver (same format as `enc_prog`)
+fn enc_prog_cx(envs: &Envs, case: &CxCase, fmt_kind: usize) -> String {
+    let r = guarded(|| -> Option<String> {
+        let mut env = cx_env(envs, 3, 0, case).ok()?;
+        env.add_template_owned("cx_main".to_string(), case.main.clone()).ok()?;
+        let strict = &envs.envs[3];
+        let enc_code = |instrs: &minijinja::machinery::Instructions| -> (String, u32) {
+            let mut n = 0u32;
+            let mut body = String::new();
+            while let Some(ins) = instrs.get(n) {
+                body.push(' ');
+                enc_instr(strict, ins, &mut body);
+                n += 1;
+            }
+            (body, n)
+        };
+        let mut codes: Vec<(String, String, u32)> = vec![];
+        let main = env.get_template("cx_main").ok()?;
+        let compiled = get_compiled_template(&main);
+        let (body, n) = enc_code(&compiled.instructions);
+        codes.push(("-".into(), body, n));
+        for (name, instrs) in compiled.blocks.iter() {
+            let (body, n) = enc_code(instrs);
+            codes.push((hx(&format!("@-@{}", name)), body, n));
+        }
+        let mut names: Vec<&str> = case.templates.iter().map(|t| t.0).collect();
+        names.extend(INCLUDABLE);
+        for name in names {
+            let t = env.get_template(name).ok()?;
+            let c = get_compiled_template(&t);
+            let (body, n) = enc_code(&c.instructions);
+            codes.push((hx(name), body, n));
+            for (bname, instrs) in c.blocks.iter() {
+                let (body, n) = enc_code(instrs);
+                codes.push((hx(&format!("@{}@{}", name, bname)), body, n));
+            }
+        }
+        let mut out = String::from("C @");
+        write!(out, " F {} A 0 P {}", fmt_kind, codes.len()).unwrap();
+        for (name, body, n) in &codes {
+            write!(out, " K {} N {}{}", name, n, body).unwrap();
+        }
+        Some(out)
+    });
+    match r {
+        Ok(Some(s)) => s,
+        _ => "-".into(),
+    }
+}
+
+/// one line of the `cx` stream; `None` = the entry form does not apply
+fn cx_line(envs: &Envs, cx: &str, entry: &str, k: usize, id: usize, class: &str, site: &str, expect: &str, ctx: &Value) -> Option<String> {
+    let case = cx_build(cx, site, expect);
+    let mut rs = vec![];
+    for mode in 0..4 {
+        rs.push(cx_render(envs, entry, mode, k, &case, site, ctx)?);
+    }
+    // what is judged: Expression::eval never prints; the visible / counting formatters write other text;
+    // a sink shows nothing
+    let class = if entry == "eval" && class == "print" { "model" } else { class };
+    let exp = match (&case.expect, k, entry) {
+        (_, 3, "to_sink") => None, // only the call count of the counting formatter is visible
+        (_, _, "to_sink") => Some(String::new()),
+        (Some(e), 0 | 1, _) => Some(e.clone()),
+        _ => None,
+    };
+    let label = format!("{}:{}", class, match exp { Some(e) => hx(&e), None => "*".into() });
+    let prog = if entry == "render" { enc_prog_cx(envs, &case, k) } else { "-".into() };
+    Some(format!("cx.{}.{}.{}\t{}\t{}\t{}\t{}\t{}", cx, entry, k, id, label, site, rs.join("\t"), prog))
+}
+
+/// (context, entry, formatter) combinations of a tier
+fn cx_combos(tier: &str) -> Vec<(&'static str, &'static str, usize)> {
+    let mut v = vec![];
+    let kinds: &[usize] = if tier == "thorough" { &[0, 1, 2, 3] } else { &[0, 2] };
+    for cx in CXS {
+        for k in kinds {
+            v.push((*cx, "render", *k));
+        }
+    }
+    // the delegating custom formatter (Environment::format on the Emit path) where the output is live / discarding
+    if tier != "thorough" {
+        for cx in ["top", "block", "macro", "extends_top", "from_import", "extends_top_set"] {
+            v.push((cx, "render", 1));
+        }
+    }
+    for entry in &CX_ENTRIES[1..] {
+        for cx in ["top", "extends_top", "from_import", "include"] {
+            for k in kinds {
+                if *entry == "eval" && cx != "top" {
+                    continue;
+                }
+                v.push((cx, *entry, *k));
+            }
+        }
+    }
+    v
+}
+
 fn emit_ctx(w: &mut impl std::io::Write, envs: &Envs) {
     let mut out = String::new();
     enc_value(&envs.envs[3], &ctx_small(), &mut out).expect("context inside the model domain");
@@ -540,7 +827,9 @@ fn emit_ctx(w: &mut impl std::io::Write, envs: &Envs) {
 fn emit_sig(w: &mut impl std::io::Write, envs: &Envs, stream: &str, id: usize, label: &str, src: &str, ctx: &Value, sig: &str) {
     // streams ending in `h`: a `.html` template (auto-escaping on)
     let name = if stream.ends_with('h') { "c.html" } else { "<string>" };
-    let rs: Vec<String> = envs.envs.iter().map(|e| render_named(e, name, src, ctx, false)).collect();
+    // streams ending in `x`: the environment with minijinja-contrib's filters / globals and pycompat
+    let es = if stream.ends_with('x') { &envs.contrib_envs } else { &envs.envs };
+    let rs: Vec<String> = es.iter().map(|e| render_named(e, name, src, ctx, false)).collect();
     writeln!(w, "{}\t{}\t{}\t{}\t{}\t{}", stream, id, label, src, rs.join("\t"), sig).unwrap();
 }
 
@@ -548,8 +837,10 @@ fn emit(w: &mut impl std::io::Write, envs: &Envs, stream: &str, id: usize, label
     debug_assert!(!src.contains('\t') && !src.contains('\n'));
     let k = fmt_kind(stream);
     let es = if k == 0 { &envs.envs } else { &envs.fmt_envs[k - 1] };
-    let rs: Vec<String> = es.iter().map(|e| render(e, src, ctx, k == 3)).collect();
-    let prog = if model { enc_prog(envs, src, ctx, k) } else { "-".into() };
+    // `sitea` / `proga`: a `.html` template (HTML auto-escaping on from the start), inside the model
+    let name = if matches!(stream, "sitea" | "proga") { "p.html" } else { "<string>" };
+    let rs: Vec<String> = es.iter().map(|e| render_named(e, name, src, ctx, k == 3)).collect();
+    let prog = if model { enc_prog_named(envs, name, src, ctx, k) } else { "-".into() };
     writeln!(w, "{}\t{}\t{}\t{}\t{}\t{}", stream, id, label, src, rs.join("\t"), prog).unwrap();
 }
 
@@ -612,6 +903,17 @@ const SITES: &[(&str, &str, &str)] = &[
     ("iterate", "[{% for x in u %}x{% else %}e{% endfor %}]", "[e]"),
     ("iterate", "[{% for x in a.b %}x{% endfor %}]", "[]"),
     ("iterate", "[{% for x in u if x %}x{% endfor %}]", "[]"),
+    // `*args`: the call iterates the value to spread it over the positional arguments
+    ("iterate", "{% macro sp() %}x{% endmacro %}[{{ sp(*u) }}]", "[x]"),
+    ("iterate", "{% macro sp(p=1) %}{{ p }}{% endmacro %}[{{ sp(*a.b) }}]", "[1]"),
+    ("iterate", "{% macro sp(p=1) %}{{ p }}{% endmacro %}[{{ sp(2, *u) }}]", "[2]"),
+    ("iterate", "[{{ dict(*u) }}]", "[{}]"),
+    ("iterate", "[{{ l1|join(*u) }}]", "[123]"),
+    ("iterate", "[{{ i1 is odd(*u) }}]", "[True]"),
+    ("model", "{% macro sp(p=1) %}{{ p }}{% endmacro %}[{{ sp(*(1 if b0)) }}|{{ sp(*[]) }}|{{ sp(*[3]) }}|{{ sp(*l0, *[4]) }}]", "[1|1|3|4]"),
+    ("model", "{% macro sp(p=1, q=2) %}{{ p }}{{ q }}{% endmacro %}[{{ sp(*[3], q=u|default(5)) }}|{{ sp(*[3, 4]) }}|{{ sp(7, *[8]) }}]", "[35|34|78]"),
+    ("model", "{% macro sp(p=1) %}{{ p }}{% endmacro %}[{{ sp(**u) }}]", ""),
+    ("model", "{% macro sp(p=1) %}{{ p }}{% endmacro %}[{{ sp(**{'p': u|default(6)}) }}]", "[6]"),
     ("model", "[{{ u|list }}]", "[[]]"),
     ("model", "[{{ 1 in u }}]", "[False]"),
     ("model", "[{{ 1 not in u }}]", "[True]"),
@@ -850,6 +1152,44 @@ const BUILTINS: &[B] = &[
     b("function", "namespace", &["m1"], &[("x", "i1")]),
 ];
 
+/// what minijinja-contrib registers (`add_to_environment`), with a valid call each
+const CONTRIB_BUILTINS: &[B] = &[
+    b("filter", "pluralize", &["i1", "'y'", "'ies'"], &[]),
+    b("filter", "pluralize", &["l1"], &[]),
+    b("filter", "filesizeformat", &["i2", "b1"], &[]),
+    b("filter", "truncate", &["'hello world foo bar'"], &[("length", "9"), ("killwords", "b1"), ("end", "'..'"), ("leeway", "0")]),
+    b("filter", "striptags", &["html"], &[]),
+    b("filter", "wordcount", &["nl"], &[]),
+    b("filter", "wordwrap", &["nl"], &[("width", "3"), ("break_long_words", "b1"), ("break_on_hyphens", "b0"), ("wrapstring", "'|'")]),
+    b("filter", "datetimeformat", &["1700000000"], &[("format", "'short'"), ("tz", "'UTC'")]),
+    b("filter", "timeformat", &["1700000000"], &[("format", "'short'"), ("tz", "'UTC'")]),
+    b("filter", "dateformat", &["1700000000"], &[("format", "'short'"), ("tz", "'UTC'")]),
+    b("filter", "random", &["l1"], &[]),
+    b("function", "now", &[], &[]),
+    b("function", "lipsum", &["1"], &[("min", "2"), ("max", "3"), ("html", "b0")]),
+    b("function", "randrange", &["1", "5"], &[]),
+    b("function", "cycler", &["[1, 2]"], &[]),
+    b("function", "joiner", &["','"], &[]),
+];
+
+/// pycompat's method callback (and objects returned by contrib globals) with possibly-undefined operands
+const PYCOMPAT: &[&str] = &[
+    "{{ s1.upper() }}", "{{ u.upper() }}", "{{ (1 if b0).upper() }}", "{{ a.b.upper() }}", "{{ s1.replace(u, 'x') }}", "{{ s1.replace('a', u) }}",
+    "{{ s1.replace(u, u) }}", "{{ s1.startswith(u) }}", "{{ s1.endswith(u) }}", "{{ s1.startswith((u, 'a')) }}", "{{ s1.find(u) }}", "{{ s1.rfind(u) }}",
+    "{{ s1.count(u) }}", "{{ s1.split(u) }}", "{{ s1.split('a', u) }}", "{{ s1.strip(u) }}", "{{ s1.lstrip(u) }}", "{{ s1.rstrip(u) }}", "{{ s1.join(u) }}",
+    "{{ s1.join([u]) }}", "{{ s1.join([s3, u]) }}", "{{ s1.join([html|safe, u]) }}", "{{ s1.capitalize() }}", "{{ s1.title() }}", "{{ s1.splitlines(u) }}",
+    "{{ s1.isdigit() }}", "{{ s1.format(u) }}", "{{ m1.get(u) }}", "{{ m1.get('zz') }}", "{{ m1.get('zz', u) }}", "{{ m1.get('zz').x }}", "{{ m1.get('zz', u).x }}",
+    "{{ m1.items()|list }}", "{{ m1.keys()|list }}", "{{ m1.values()|list }}", "{{ {'k': u}.values()|list }}", "{{ {'k': u}.items()|list }}", "{{ {'k': u}.get('k') }}",
+    "{{ {'k': u}.get('k').x }}", "{{ l1.count(u) }}", "{{ [u].count(u) }}", "{{ l1.index(u) }}", "{{ u.get('k') }}", "{{ u.items() }}", "{{ u.count(1) }}",
+    "{% set c = cycler([u, 1]) %}{{ c.next() }}|{{ c.next() }}|{{ c.current }}", "{% set c = cycler([u, 1]) %}{{ c.next().x }}", "{% set c = cycler([1, 2]) %}{{ c.nope }}|{{ c.nope.x }}",
+    "{{ cycler(u) }}", "{{ cycler([]) }}",
+    "{% set j = joiner(u) %}{{ j() }}|{{ j() }}", "{% set j = joiner() %}{{ j() }}{{ j() }}", "{% set j = joiner(s3) %}{{ j(u) }}",
+    "{{ lipsum(u) is string }}", "{{ lipsum(n=u) is string }}", "{{ lipsum(1, html=u) is string }}", "{{ randrange(u) }}", "{{ randrange(1, u) }}", "{{ [u, u]|random is defined }}",
+    "{{ u|random }}", "{{ u|truncate(length=u) }}", "{{ s1|truncate(length=u) }}", "{{ s1|truncate(end=u) }}", "{{ u|pluralize }}", "{{ i1|pluralize(u) }}",
+    "{{ i1|pluralize(u, u) }}", "{{ 1|pluralize(u) }}", "{{ 1|pluralize(u).x }}", "{{ u|wordcount }}", "{{ u|wordwrap }}", "{{ s1|wordwrap(width=u) }}",
+    "{{ u|striptags }}", "{{ u|filesizeformat }}", "{{ i1|filesizeformat(u) }}", "{{ u|datetimeformat }}", "{{ 0|datetimeformat(format=u, tz='UTC') }}", "{{ 0|dateformat(tz=u) is string }}",
+];
+
 /// statement forms with a possibly-undefined operand (oracle: monotonicity only)
 const STMTS: &[&str] = &[
     "{% include u %}", "{% include u ignore missing %}", "{% include [u, 'inc'] %}", "{% include [u, 'incdef'] %}",
@@ -1019,12 +1359,14 @@ fn call_src(bi: &B, args: &[String], kwargs: &[(String, String)]) -> String {
     match bi.kind {
         "filter" => format!("[{{{{ {}|{}{} }}}}]", recv.unwrap(), bi.name, call),
         "test" => format!("[{{{{ {} is {}{} }}}}]", recv.unwrap(), bi.name, call),
+        // the current time is not printed (the four renders would differ)
+        _ if bi.name == "now" => format!("[{{{{ {}{} is defined }}}}]", bi.name, call),
         _ => format!("[{{{{ {}{} }}}}]", bi.name, call),
     }
 }
 
-fn gen_calls(tier: &str, f: &mut dyn FnMut(String, (String, String))) {
-    for bi in BUILTINS {
+fn gen_calls(list: &[B], tier: &str, f: &mut dyn FnMut(String, (String, String))) {
+    for bi in list {
         let args: Vec<String> = bi.args.iter().map(|s| s.to_string()).collect();
         let kw: Vec<(String, String)> = bi.kwargs.iter().map(|(k, v)| (k.to_string(), v.to_string())).collect();
         let npos = args.len();
@@ -1094,21 +1436,27 @@ fn gen_calls(tier: &str, f: &mut dyn FnMut(String, (String, String))) {
 const POOL: &[&str] = &["u", "(1 if b0)", "none", "i1", "s1", "z", "l1", "m1", "b1", "[u]", "f1", "[s1, u]", "by", "opl", "om", "os", "oit", "big", "nan"];
 
 fn all_names() -> Vec<(&'static str, &'static str)> {
+    names_of(BUILTINS, true)
+}
+
+fn names_of(list: &'static [B], symbols: bool) -> Vec<(&'static str, &'static str)> {
     let mut v: Vec<(&str, &str)> = vec![];
-    for bi in BUILTINS {
+    for bi in list {
         if !v.contains(&(bi.kind, bi.name)) {
             v.push((bi.kind, bi.name));
         }
     }
-    for t in SYMBOL_TESTS {
-        v.push(("test", t));
+    if symbols {
+        for t in SYMBOL_TESTS {
+            v.push(("test", t));
+        }
     }
     v
 }
 
-fn gen_sweep(tier: &str, f: &mut dyn FnMut(String, (String, String))) {
+fn gen_sweep(names: Vec<(&'static str, &'static str)>, tier: &str, f: &mut dyn FnMut(String, (String, String))) {
     let max_arity = if tier == "thorough" { 3 } else { 2 };
-    for (kind, name) in all_names() {
+    for (kind, name) in names {
         let symbol = SYMBOL_TESTS.contains(&name);
         for recv in POOL {
             let mut arg_lists: Vec<Vec<&str>> = vec![vec![]];
@@ -1146,7 +1494,7 @@ fn gen_sweep(tier: &str, f: &mut dyn FnMut(String, (String, String))) {
                         _ => {
                             let mut all = vec![*recv];
                             all.extend(args.iter());
-                            format!("[{{{{ {}({}) }}}}]", name, all.join(", "))
+                            format!("[{{{{ {}({}){} }}}}]", name, all.join(", "), if name == "now" { " is defined" } else { "" })
                         }
                     }
                 };
@@ -1175,7 +1523,13 @@ struct Gen {
     missing_pct: u64,
     /// percentage of operands generated without regard to the operator's type expectations
     wild_pct: u64,
+    /// strings with HTML special characters, safe strings, `safe` / `escape` / safe joins, autoescape blocks
+    html: bool,
 }
+
+const HTML_VARS: &[&str] = &["h1", "hs", "lh", "lp", "hs", "lh"];
+const HTML_FILTERS: &[&str] = &["safe", "escape", "e", "join(hs)", "join('<')", "join", "join(u)", "upper", "trim", "string", "first", "last", "default('<d>')", "default(hs)", "list", "length"];
+const HTML_TESTS: &[&str] = &["safe", "escaped", "string", "defined", "eq('<i>')", "in(lh)"];
 
 const DEFINED: &[&str] = &["i1", "i2", "z", "s1", "s2", "s3", "b1", "b0", "n", "l1", "l0", "ls", "m1", "a", "lm"];
 const INTS: &[&str] = &["i1", "i2", "z"];
@@ -1198,6 +1552,9 @@ impl Gen {
     fn var(&mut self, ty: Ty) -> String {
         if self.rng.below(100) < self.missing_pct {
             return self.rng.pick(MISSING).to_string();
+        }
+        if self.html && self.rng.chance(1, 3) {
+            return self.rng.pick(HTML_VARS).to_string();
         }
         if ty == Ty::Any && self.rng.chance(1, 4) && !self.locals.is_empty() {
             let i = self.rng.below(self.locals.len() as u64) as usize;
@@ -1299,12 +1656,12 @@ impl Gen {
             14 | 15 => format!("({} ~ {})", self.expr(d1), self.expr(d1)),
             16 => self.expr_t(d, Ty::Int),
             17 | 18 => {
-                let t = if self.rich && self.rng.chance(1, 2) { *self.rng.pick(RICH_TESTS) } else { *self.rng.pick(MODEL_TESTS) };
+                let t = if self.html && self.rng.chance(1, 3) { *self.rng.pick(HTML_TESTS) } else if self.rich && self.rng.chance(1, 2) { *self.rng.pick(RICH_TESTS) } else { *self.rng.pick(MODEL_TESTS) };
                 let neg = if self.rng.chance(1, 4) { "not " } else { "" };
                 format!("({} is {}{})", self.postfix(d1), neg, t)
             }
             19 | 20 | 21 => {
-                let f = if self.rich && self.rng.chance(1, 2) { *self.rng.pick(RICH_FILTERS) } else { *self.rng.pick(MODEL_FILTERS) };
+                let f = if self.html && self.rng.chance(1, 2) { *self.rng.pick(HTML_FILTERS) } else if self.rich && self.rng.chance(1, 2) { *self.rng.pick(RICH_FILTERS) } else { *self.rng.pick(MODEL_FILTERS) };
                 let needs_cont = ["length", "count", "first", "last", "join", "join('-')", "join(u)", "min", "max", "list", "reverse", "sort", "unique|list", "select|list", "batch(2)|list", "zip(u)|list", "chain(u)|list"].contains(&f);
                 let needs_int = ["sum", "abs", "round", "select('odd')|list"].contains(&f);
                 let recv = if needs_cont { self.postfix_t(d1, Ty::Cont) } else if needs_int && f != "sum" { self.postfix_t(d1, Ty::Int) } else if f == "sum" { (*self.rng.pick(&["l1", "l0", "u", "[i1, u]", "[1, 2]"])).to_string() } else { self.postfix(d1) };
@@ -1372,6 +1729,10 @@ impl Gen {
         let ed = 1 + self.rng.below(3) as u32;
         if d == 0 {
             return format!("{}{{{{ {} }}}}", self.text(), self.expr(ed));
+        }
+        if self.html && self.rng.chance(1, 6) {
+            let how = *self.rng.pick(&["'html'", "true", "false", "'none'", "u", "b1", "i1", "none", "(1 if b0)", "'nope'"]);
+            return format!("{{% autoescape {} %}}{}{{% endautoescape %}}", how, self.body(d - 1, 2));
         }
         let top = if self.rich { 14 } else { 11 };
         match self.rng.below(top) {
@@ -1518,13 +1879,31 @@ fn main() {
             for (k, n) in all_names() {
                 writeln!(w, "{}\t{}", k, n).unwrap();
             }
+            for (k, n) in names_of(CONTRIB_BUILTINS, false) {
+                writeln!(w, "contrib-{}\t{}", k, n).unwrap();
+            }
         }
         "one" => {
             let stream = args.get(2).map(|s| s.as_str()).unwrap_or("prog");
             let src = args.get(3).cloned().unwrap_or_default();
-            let small = matches!(stream, "site" | "fmt" | "fmtv" | "fmtc" | "prog" | "progv" | "progc");
+            let small = matches!(stream, "site" | "sitea" | "fmt" | "fmtv" | "fmtc" | "prog" | "proga" | "progv" | "progc");
             let ctx = if small { ctx_small() } else { ctx_big() };
             emit_ctx(&mut w, &envs);
+            if let Some(rest) = stream.strip_prefix("cx.") {
+                // `cx.<context>.<entry>.<formatter>`: the site template in that output context
+                let p: Vec<&str> = rest.split('.').collect();
+                let k = p.get(2).and_then(|x| x.parse::<usize>().ok()).unwrap_or(0);
+                match cx_line(&envs, p[0], p.get(1).copied().unwrap_or("render"), k, 0, "replay", &src, "", &ctx_small()) {
+                    Some(l) => writeln!(w, "{}", l).unwrap(),
+                    None => writeln!(w, "{}\t0\treplay:*\t{}\t-\t-\t-\t-\t-", stream, src).unwrap(),
+                }
+                return;
+            }
+            if stream.ends_with('x') || stream.ends_with('h') {
+                let c = if stream.ends_with('x') { context! { RAND_SEED => 42, ..ctx_big() } } else { ctx_safe() };
+                emit_sig(&mut w, &envs, stream, 0, "replay", &src, &c, "-");
+                return;
+            }
             emit(&mut w, &envs, stream, 0, "replay", &src, &ctx, small);
         }
         "gen" => {
@@ -1541,6 +1920,12 @@ fn main() {
                 emit(&mut w, &envs, "fmt", id, &format!("{}:{}", class, hx(expect)), src, &small, true);
                 id += 1;
             }
+            // the sites in a `.html` template: HTML auto-escaping on (expected text only where nothing is escaped)
+            for (class, src, expect) in SITES {
+                let e = if expect.chars().any(|c| "<>&\"'/".contains(c)) { "*".to_string() } else { hx(expect) };
+                emit(&mut w, &envs, "sitea", id, &format!("{}:{}", class, e), src, &small, true);
+                id += 1;
+            }
             // the visible and the counting formatter: the outputs differ from the default ones, so
             // only the error pattern of the class is judged (label `class:*`), plus monotonicity
             for stream in ["fmtv", "fmtc"] {
@@ -1549,14 +1934,23 @@ fn main() {
                     id += 1;
                 }
             }
+            // the site matrix in every output context / entry form / formatter
+            for (cx, entry, k) in cx_combos(&tier) {
+                for (class, src, expect) in SITES {
+                    if let Some(l) = cx_line(&envs, cx, entry, k, id, class, src, expect, &small) {
+                        writeln!(w, "{}", l).unwrap();
+                        id += 1;
+                    }
+                }
+            }
             let mut calls: Vec<(String, (String, String))> = vec![];
-            gen_calls(&tier, &mut |label, c| calls.push((label, c)));
+            gen_calls(BUILTINS, &tier, &mut |label, c| calls.push((label, c)));
             for (label, (src, sig)) in &calls {
                 emit_sig(&mut w, &envs, "call", id, label, src, &big, sig);
                 id += 1;
             }
             let mut sweep: Vec<(String, (String, String))> = vec![];
-            gen_sweep(&tier, &mut |label, c| sweep.push((label, c)));
+            gen_sweep(all_names(), &tier, &mut |label, c| sweep.push((label, c)));
             for (label, (src, sig)) in &sweep {
                 emit_sig(&mut w, &envs, "sweep", id, label, src, &big, sig);
                 id += 1;
@@ -1582,6 +1976,24 @@ fn main() {
             }
             for src in STMTS {
                 emit_sig(&mut w, &envs, "stmth", id, "stmt", src, &safe_ctx, "-");
+                id += 1;
+            }
+            // what minijinja-contrib registers, and pycompat's method callback (`x` streams: the contrib environment)
+            let mut callsx: Vec<(String, (String, String))> = vec![];
+            gen_calls(CONTRIB_BUILTINS, &tier, &mut |label, c| callsx.push((label, c)));
+            let bigx = context! { RAND_SEED => 42, ..big.clone() };
+            for (label, (src, sig)) in &callsx {
+                emit_sig(&mut w, &envs, "callx", id, label, src, &bigx, sig);
+                id += 1;
+            }
+            let mut sweepx: Vec<(String, (String, String))> = vec![];
+            gen_sweep(names_of(CONTRIB_BUILTINS, false), &tier, &mut |label, c| sweepx.push((label, c)));
+            for (label, (src, sig)) in &sweepx {
+                emit_sig(&mut w, &envs, "sweepx", id, label, src, &bigx, sig);
+                id += 1;
+            }
+            for src in PYCOMPAT {
+                emit_sig(&mut w, &envs, "pyx", id, "stmt", src, &bigx, "-");
                 id += 1;
             }
             // one-shot iterators: the context is rebuilt for every render
@@ -1612,7 +2024,7 @@ fn main() {
             }
             let n_model = if tier == "thorough" { 100000 } else { 2000 };
             let n_rich = if tier == "thorough" { 100000 } else { 2000 };
-            let mut g = Gen { rng: Rng::new(seed_from_env()), locals: vec![], macros: vec![], rich: false, missing_pct: 30, wild_pct: 10 };
+            let mut g = Gen { rng: Rng::new(seed_from_env()), locals: vec![], macros: vec![], rich: false, missing_pct: 30, wild_pct: 10, html: false };
             for i in 0..(n_model + n_rich) {
                 g.rich = i >= n_model;
                 g.missing_pct = [8, 15, 30, 50][i % 4];
@@ -1632,6 +2044,23 @@ fn main() {
                 }
                 if i % 3 == 2 {
                     emit_sig(&mut w, &envs, "progh", id, label, &src, &safe_ctx, "-");
+                    id += 1;
+                }
+            }
+            // auto-escaping and safe strings inside the model: programs over strings with HTML special characters,
+            // safe strings, `safe` / `escape` / safe joins (join_safe -> State::format), autoescape blocks; rendered as a
+            // plain and as a `.html` template (HTML escaping on from the start), a part through the custom formatters
+            let n_html = if tier == "thorough" { 40000 } else { 1200 };
+            let mut g = Gen { rng: Rng::new(seed_from_env() ^ 0x5afe), locals: vec![], macros: vec![], rich: false, missing_pct: 30, wild_pct: 10, html: true };
+            for i in 0..n_html {
+                g.rich = i % 2 == 1;
+                g.missing_pct = [8, 15, 30, 50][i % 4];
+                g.wild_pct = [3, 10, 25][(i / 4) % 3];
+                let src = g.program();
+                emit(&mut w, &envs, if i % 3 == 0 { "prog" } else { "proga" }, id, "html", &src, &small, true);
+                id += 1;
+                if i % 4 == 0 {
+                    emit(&mut w, &envs, if i % 8 == 0 { "progv" } else { "progc" }, id, "html", &src, &small, true);
                     id += 1;
                 }
             }
